@@ -539,7 +539,7 @@ def register(reg):
     class AutoInit(Contract):
         """the back end is chosen once, for the library the first call runs under: trio -> TrioBackend, else AnyIOBackend"""
         key = AUTO + "._init_backend"
-        props = ("C10", "C16", "C18")
+        props = ("C10", "C16", "C18", "C15")
         trees = ("async",)
         inline = True
         raises = []
@@ -561,7 +561,7 @@ def register(reg):
         class AutoConnect(Contract):
             """every argument reaches the chosen back end unchanged, and its stream is what the caller gets"""
             key = AUTO + "." + method
-            props = ("C10", "C16", "C18", "C20")
+            props = ("C10", "C16", "C18", "C20", "C15")
             trees = ("async",)
             params = {"timeout": "val", "local_address": "val", "socket_options": "val", "host": "str", "port": "int", "path": "val"}
             raises = NET_CONNECT_RAISES + ["Cancelled"]
